@@ -168,9 +168,20 @@ func ite(c, a, b *Term) *Term {
 	}
 	return mk(a.Sort, "ite", c, a, b)
 }
+func isIntLit(t *Term) bool {
+	if len(t.Args) != 0 || t.Sort != SInt || t.Op == "" {
+		return false
+	}
+	c := t.Op[0]
+	return c >= '0' && c <= '9' || strings.HasPrefix(t.Op, "(- ")
+}
+
 func eq(a, b *Term) *Term {
 	if a == b {
 		return tTrue
+	}
+	if isIntLit(a) && isIntLit(b) {
+		return tFalse // distinct hash-consed literals
 	}
 	if a.Sort == SF64 {
 		// structural equality on floats is bit-identity-ish "="; Go == uses fp.eq; callers choose.
